@@ -99,13 +99,19 @@ def run(tier, seed):
     run_jobs(rep, job_msm, [(c, 3, s, 1) for c in (4, 5, 6, 7, 8) for s in (0, 1)] + [(4, 2, 1, 0), (5, 2, 1, 0)], name=lambda a: "msm %s" % (a,), on_result=on)
     run_jobs(rep, job_partition, [(5, 2, 16, 8), (7, 3, 3, 16), (4, 4, 2, 5), (9, 4, 4, 4)], name=lambda a: "partition %s" % (a,), on_result=on)
     run_jobs(rep, job_multiexp, [(5, 65, 16), (9, 0, 128), (8, 128, 16), (3, 16, 16)], name=lambda a: "multiexp %s" % (a,), on_result=on)
-    rep.bounds = {"fork-join regions": "BatchNormalize (all pointer lists of length <= 3 over a 3-element pool, both map orders), groupPolynomialsByEvaluationPoint (n in {2,3}, NumCPU 1,2,3,16), "
+    # pooled big integers: every object is put back at most once per Get (a double Put hands one object to two goroutines)
+    from checks import c16
+    if c16.load(rep):
+        dj = [(h, {"n": n}) for h in ("VerifC16SetBytes", "VerifC16SetBytesLE", "VerifC16SetBytesLECanonical", "VerifC16SetBigInt") for n in (1, 32, 33)]
+        c16.run_decoders(rep, dj)
+    rep.bounds = {"pooled big integers": "the four scalar decoders on inputs of 1, 32, 33 bytes (accepting and rejecting paths): no object is returned to bigIntPool twice",
+                  "fork-join regions": "BatchNormalize (all pointer lists of length <= 3 over a 3-element pool, both map orders), groupPolynomialsByEvaluationPoint (n in {2,3}, NumCPU 1,2,3,16), "
                   "msmC4..8 (n=3, with and without first-chunk split), partitionScalars fan-out, MultiExp recursive split, CreateMultiProof end to end",
                   "conditions": "for every pair of accesses from different goroutines to the same cell with at least one write: ordered by spawn / WaitGroup / channel happens-before; "
                   "sends never block on a full buffer, receives never on an empty channel after all senders finished, close after all sends, Wait counter returns to zero",
                   "outside": "interleavings are NOT enumerated: the claim is the data-race-freedom condition on the recorded accesses of the eager schedule (sound for these regions because task bodies do not branch on shared mutable state); "
                              "NewPrecompPoint's errgroup region and msmC9+ are not covered; the Go memory model below WaitGroup/channel ordering; starvation"}
-    rep.assumptions = ["sync.Pool and sync.Once are trusted synchronised exceptions", "shared configuration/tables are only read (frame obligations in the same runs)",
+    rep.assumptions = ["sync.Pool and sync.Once are trusted synchronised exceptions (the pool protocol - one Put per Get - is checked)", "shared configuration/tables are only read (frame obligations in the same runs)",
                        "goroutine bodies access the same cells in every schedule (no control dependence on racing data)"]
     return rep.finish(level_if_clean="other", explanation="Sufficient conditions for race freedom and absence of blocking decided on the access/event log of symbolic runs of the real fan-out code; "
                       "not an exhaustive schedule exploration.")
